@@ -165,11 +165,37 @@ fn medium_part(tier: Tier) -> Part<'static, LockStep> {
     }
 }
 
+static SYS_SWEEP: LockStep = LockStep { property: "C05", probes: false, seed: Some(&super::sweep::fill) };
+
+fn alpha_sweep(cfg: &Cfg) -> Vec<Op> {
+    let mut v = super::sweep::placements(cfg, false);
+    v.extend(super::sweep::move_funcs(cfg));
+    // tab movement over hand-set stops: every single stop and every pair of stops,
+    // with the cursor then at the left or the right edge (HT / CHT n / CBT n follow)
+    let cols = cfg.cols as u32;
+    for c1 in 2..cols {
+        for end in [1, cols] {
+            v.push(c(Seq(vec![Cha(Some(c1)), Hts, Cha(Some(end))])));
+        }
+        for c2 in c1 + 1..cols {
+            for end in [1, cols] {
+                v.push(c(Seq(vec![Cha(Some(c1)), Hts, Cha(Some(c2)), Hts, Cha(Some(end))])));
+            }
+        }
+    }
+    v.push(c(Tbc(Some(3))));
+    v
+}
+
+static SYS_MODES: LockStep = LockStep { property: "C05", probes: false, seed: None };
+
 pub fn run(ctx: &Ctx) -> Report {
     let mut rep = Report::new();
     let p = parts!(ctx.tier, &SYS);
     run_part(ctx, &mut rep, &p);
     run_part(ctx, &mut rep, &medium_part(ctx.tier));
+    run_part(ctx, &mut rep, &super::sweep::sweep_part("moves-large-screen-parameter-sweep", &SYS_SWEEP, &alpha_sweep, ctx.tier));
+    run_part(ctx, &mut rep, &super::sweep::mode_part(&SYS_MODES, ctx.tier));
     rep.rule = "lock-step BFS of (real Vt, reference terminal) over every movement command x parameter class x spelling, DECOM, valid and invalid DECSTBM pairs, text to reach wrap-pending, resizes; after every transition all cells of lines(), the cursor and the specified wrap marks are compared; a probe layer at every new state exposes margins, origin mode, tab stops and saved contexts".into();
     rep.assumptions = vec!["readings R1-R7 of DESIGN.md §3.2 (wrap-pending column compared as min(col, cols-1) after vertical moves)".into()];
     rep
@@ -179,6 +205,12 @@ pub fn replay(ctx: &Ctx, v: &Value) -> bool {
     let tier = if v["tier"] == "thorough" { Tier::Thorough } else { Tier::Quick };
     if v["part"] == "moves-lockstep-medium-screen" {
         return replay_part(ctx, &medium_part(tier), v);
+    }
+    if v["part"] == "mode-list-shapes" {
+        return replay_part(ctx, &super::sweep::mode_part(&SYS_MODES, tier), v);
+    }
+    if v["part"] == "moves-large-screen-parameter-sweep" {
+        return replay_part(ctx, &super::sweep::sweep_part("moves-large-screen-parameter-sweep", &SYS_SWEEP, &alpha_sweep, tier), v);
     }
     let p = parts!(tier, &SYS);
     replay_part(ctx, &p, v)
